@@ -96,12 +96,17 @@ class Sim:
             elif st['state'] == 'draining':
                 if all(v['state'] == 'done' for k, v in self.threads.items() if k != n):
                     r.append(n)
-            elif st['state'] == 'joining':
+            elif st['state'] in ('joining', 'sleeping'):
                 tgt = self.threads.get(st['waiting_for'])
                 obj = self.objs.get(st['waiting_for'])
                 lk = getattr(obj, '_tstate_lock', None)
                 if tgt is None or tgt['state'] == 'done' or (tgt['state'] != 'unstarted' and (lk is None or not lk.locked())):
                     r.append(n)
+                elif st['state'] == 'sleeping' and self.decisions >= st.get('wake_at', 0):
+                    r.append(n)          # a timed join that timed out (simulated time = scheduler decisions)
+        if not r:
+            # nobody else can run: a sleeper's timeout expires (time jumps to the next timer)
+            r = [n for n in sorted(self.threads) if self.threads[n]['state'] == 'sleeping']
         if self.stalled:
             r2 = [n for n in r if self.stalled.get(n, -1) <= self.decisions]
             if r2:
@@ -353,22 +358,34 @@ def install_thread_seam(scared):
                 sim.finish(label)
         return orig_run(self, container)
 
-    def join(self):
+    def join(self, *args, **kw):
         sim = SIM
         name = tname()
         label = getattr(self, '_sim_label', None)
         if sim is not None and name is not None and label in sim.threads and not sim.aborted:
+            timeout = kw.get('timeout', args[0] if args else None)
             st = sim.threads[name]
-            st['state'] = 'joining'
+            st['state'] = 'joining' if timeout is None else 'sleeping'
             st['waiting_for'] = label
-            sim.ev('join', name, label)
+            if timeout is not None:
+                # a timed join (not used by the pinned code; a refactoring may poll): the caller sleeps for a fixed amount of simulated
+                # time (scheduler decisions) or until the target is done, then performs a non-blocking real join
+                st['wake_at'] = sim.decisions + 25
+                sim.ev('timed-join', name, label)
+            else:
+                sim.ev('join', name, label)
             try:
                 sim.block_until_runnable(name)
                 sim.settle()
             finally:
                 st['state'] = 'runnable'
                 st['waiting_for'] = None
-        return orig_join(self)
+            if timeout is not None:
+                if 'timeout' in kw:
+                    kw['timeout'] = 0
+                else:
+                    args = (0,) + tuple(args[1:])
+        return orig_join(self, *args, **kw)
 
     K.start, K.run, K.join = start, run, join
     return True
